@@ -278,7 +278,63 @@ func Terminate(v *vrt.Ctx) {
 	}
 }
 
+// MidRun: an external function sets TERMINATE in the middle of a run (its
+// FlagSet list is symbolic, TERMINATE among the candidates): nothing that
+// follows in the same pending code may have an effect - no further external
+// call, no move, no client flag change.
+func MidRun(v *vrt.Ctx) {
+	st := state.NewState(8)
+	ca := cache.NewCache()
+	st.Down("root")
+	ca.Push()
+	rs := app.NewRes()
+	sets := v.U32("set-flag")
+	v.Assume(sets < uint32(len(st.Flags))*8)
+	rs.Funcs["quit"] = func(ctx context.Context, sym string, input []byte) (resource.Result, error) {
+		return resource.Result{Content: "q", FlagSet: []uint32{sets}}, nil
+	}
+	rs.Funcs["f"] = func(ctx context.Context, sym string, input []byte) (resource.Result, error) {
+		return resource.Result{Content: "x", FlagSet: []uint32{9}}, nil
+	}
+	// a different target per position (descending into the node one is at
+	// is a documented panic, not the subject here)
+	rs.Node("other0", "other", app.Code().Bytes())
+	rs.Node("other1", "other", app.Code().Bytes())
+	rs.Node("_catch", "catch", app.Code().Halt().Bytes())
+	code := app.Code().Load("quit", 4)
+	n := 1 + v.Choice("following", 2)
+	for i := 0; i < n; i++ {
+		switch v.Choice("then", 5) {
+		case 0:
+			code.Load("f", 4)
+		case 1:
+			code.Move([]string{"other0", "other1"}[i])
+		case 2:
+			code.Catch([]string{"other0", "other1"}[i], 8, false)
+		case 3:
+			code.InCmp([]string{"other0", "other1"}[i], "*")
+		case 4:
+			code.MOut("x", "1")
+		}
+	}
+	st.SetInput([]byte("1"))
+	vmi := vm.NewVm(st, rs, ca, render.NewSizer(0))
+	_, err := vmi.Run(context.Background(), code.Halt().Bytes())
+	v.Observe("err", err)
+	if sets != state.FLAG_TERMINATE {
+		v.Cover("C06/midrun-not-terminated")
+		return
+	}
+	v.Assert(err == nil, "C06/midrun-run-ok")
+	v.Assert(bit(st.Flags, state.FLAG_TERMINATE), "C06/midrun-terminate-set")
+	v.Assert(rs.CallsOf("f") == 0, "C06/midrun-no-external-call-after-terminate")
+	v.Assert(len(st.ExecPath) == 1 && st.ExecPath[0] == "root", "C06/midrun-no-position-change-after-terminate")
+	v.Assert(!bit(st.Flags, 9), "C06/midrun-no-flag-change-after-terminate")
+	v.Cover("C06/midrun-terminated")
+}
+
 var Harnesses = map[string]func(*vrt.Ctx){
+	"MidRun":    MidRun,
 	"Writeable": Writeable,
 	"Refresh":   Refresh,
 	"Catch":     Catch,
